@@ -1072,3 +1072,489 @@ Proof.
   intros Hf. split; [|auto]. intros ->. destruct (is_lock_ctx c) eqn:E; auto.
   specialize (F2 Hf eq_refl). discriminate.
 Qed.
+
+(* acquire / release alternate: [scan] is None as soon as somebody acquires while another party
+   is inside its critical section, or a release comes from somebody who is not the holder *)
+Definition scan1 (h : option (option nat)) (e : ev) : option (option nat) :=
+  match h with
+  | None => None
+  | Some cur =>
+      match e with
+      | EComplete k OValue _ | ETryAcq k => match cur with None => Some (Some k) | Some _ => None end
+      | ERelease k => match cur with
+                      | Some j => if Nat.eqb k j then Some None else None
+                      | None => None
+                      end
+      | _ => Some cur
+      end
+  end.
+Definition scan (tr : list ev) : option (option nat) := fold_left scan1 tr (Some None).
+
+Definition rel_of (x : nat) (y : act * cont) : nat :=
+  match y with (ARelease z, _) => eqn z x | _ => 0 end.
+(* x is inside its critical section: a granted lock operation that has not started unlock(), or
+   a try_lock winner *)
+Definition hold_x (s : st) (x : nat) : nat :=
+  (if x <? nl s then op_tok (ops s x) else 0) + sumf (rel_of x) (thr s).
+
+Lemma hold_bound s t a kc x : nth_error (thr s) t = Some (a, kc) -> rel_of x (a, kc) = 0 ->
+  hold_x s x + act_tok a <= tokens s.
+Proof.
+  intros Hth Hr. rewrite tokens_eq. unfold hold_x, thr_tok.
+  assert (O : (if x <? nl s then op_tok (ops s x) else 0) <= ops_tok s).
+  { destruct (Nat.ltb_spec x (nl s)); [apply op_tok_le_ops_tok; auto|lia]. }
+  pose proof (sumf_set_nth (rel_of x) (thr s) t (AFin, KEnd) _ Hth) as R1.
+  pose proof (sumf_set_nth (fun y => act_tok (fst y)) (thr s) t (AFin, KEnd) _ Hth) as R2.
+  simpl in R2. change (rel_of x (AFin, KEnd)) with 0 in R1. rewrite Hr in R1.
+  assert (L : sumf (rel_of x) (set_nth t (AFin, KEnd) (thr s)) <= sumf (fun y => act_tok (fst y)) (set_nth t (AFin, KEnd) (thr s))).
+  { apply sumf_le. intros [a0 k0]. destruct a0; simpl; try lia. unfold eqn. destruct (_ =? _); lia. }
+  lia.
+Qed.
+
+Record TInv2 (c : st * list ev) : Prop := {
+  t2_inv : Inv (fst c);
+  t2_scan : exists h, scan (snd c) = Some h /\
+            forall x, hold_x (fst c) x = match h with Some y => eqn y x | None => 0 end
+}.
+
+Lemma init_tinv2 fx hs nt : TInv2 (init fx hs nt, []).
+Proof.
+  constructor; [apply init_inv|]. exists None. split; [reflexivity|]. intros x.
+  cbn [fst snd]. unfold hold_x. rewrite init_sum0 by reflexivity. simpl. rewrite sumf_zero by auto.
+  destruct (x <? length hs); reflexivity.
+Qed.
+
+Lemma hold_set_thr S t a k y x : nth_error (thr S) t = Some y ->
+  hold_x (set_thr S t a k) x + rel_of x y = hold_x S x + rel_of x (a, k).
+Proof.
+  intros H. unfold hold_x, set_thr. cbn [thr nl ops].
+  pose proof (sumf_set_nth (rel_of x) (thr S) t (a, k) y H).
+  remember (if x <? nl S then op_tok (ops S x) else 0) as o. lia.
+Qed.
+Lemma hold_set_locked s b x : hold_x (set_locked s b) x = hold_x s x. Proof. reflexivity. Qed.
+Lemma hold_set_queue s q x : hold_x (set_queue s q) x = hold_x s x. Proof. reflexivity. Qed.
+Lemma hold_neutral s k f x : (forall o, op_tok (f o) = op_tok o) -> hold_x (upd_op s k f) x = hold_x s x.
+Proof.
+  intros H. unfold hold_x. simpl. destruct (x <? nl s); auto. destruct (x =? k); auto.
+Qed.
+Lemma hold_upd s k f x : k < nl s ->
+  hold_x (upd_op s k f) x + (if x =? k then op_tok (ops s k) else 0)
+  = hold_x s x + (if x =? k then op_tok (f (ops s k)) else 0).
+Proof.
+  intros H. unfold hold_x. simpl. destruct (Nat.eqb_spec x k).
+  - subst. apply Nat.ltb_lt in H. rewrite H. lia.
+  - lia.
+Qed.
+
+Ltac hold_neutral_in X :=
+  repeat first [ rewrite hold_set_locked in X | rewrite hold_set_queue in X
+               | rewrite hold_neutral in X by (intros; reflexivity) ].
+
+(* express hold_x of the new state by hold_x of the old one *)
+Ltac hold_norm Hth Hk x :=
+  unfold ret; cbn [ret_to fst snd];
+  match goal with |- context [hold_x (set_thr ?S ?t ?a ?k) x] =>
+    let HT := fresh "HT" in pose proof (hold_set_thr S t a k _ x Hth) as HT;
+    let v := fresh "v" in remember (hold_x (set_thr S t a k) x) as v eqn:Ev; clear Ev;
+    try match type of HT with
+    | context [hold_x (upd_op ?S2 ?k2 (w_res ?o)) x] =>
+        let OT := fresh "OT" in pose proof (hold_upd S2 k2 (w_res o) x Hk) as OT;
+        let w := fresh "w" in remember (hold_x (upd_op S2 k2 (w_res o)) x) as w eqn:Ew; clear Ew;
+        hold_neutral_in OT; simpl in OT; rewrite ?Nat.eqb_refl in OT; simpl in OT
+    | context [hold_x (upd_op ?S2 ?k2 w_released) x] =>
+        let OT := fresh "OT" in pose proof (hold_upd S2 k2 w_released x Hk) as OT;
+        let w := fresh "w" in remember (hold_x (upd_op S2 k2 w_released) x) as w eqn:Ew; clear Ew;
+        hold_neutral_in OT; simpl in OT; rewrite ?Nat.eqb_refl in OT; simpl in OT
+    end;
+    hold_neutral_in HT; simpl in HT
+  end.
+
+Lemma step_tinv2 c t s' evs : TInv2 c -> step t (fst c) = Some (s', evs) -> TInv2 (s', snd c ++ evs).
+Proof.
+  destruct c as [s tr]. simpl. intros T H.
+  pose proof (t2_inv _ T) as I. simpl in I.
+  pose proof (step_inv _ _ _ _ I H) as I'.
+  constructor; simpl; [exact I'|]. clear I'.
+  destruct (t2_scan _ T) as [h [Hs Hh]]. simpl in Hs, Hh.
+  unfold scan in *. rewrite fold_left_app, Hs. clear Hs.
+  pose proof (v_tok _ I) as T0.
+  step_split' H Hth;
+    try (pose proof (compl_facts _ _ _ _ _ _ I Hth eq_refl) as (Hk & Hres & Hrel & Hcan & Hcomp));
+    try (assert (Hk : i < nl s) by (eapply (v_wf_a _ I _ _ _ _ Hth); reflexivity));
+    cbn [fold_left scan1];
+    try (exists h; split; [reflexivity|]; intros xx; rewrite <- (Hh xx); try (destruct kc; try kill_ki I Hth);
+         hold_norm Hth Hk xx; unfold getop in *; unfold op_tok in *; simpl in *;
+         rewrite ?Hres, ?Hrel in *; simpl in *; destr_if; try lia; fail).
+  (* acquisitions: nobody is inside a critical section *)
+  all: try (assert (Hn : h = None);
+            [ destruct h as [y|]; auto; exfalso; pose proof (Hh y) as Hy; unfold eqn in Hy; rewrite Nat.eqb_refl in Hy;
+              pose proof (hold_bound s t _ _ y Hth eq_refl) as B; simpl in B;
+              unfold getop in *; simpl in *; rewrite ?Nat.eqb_refl in *; simpl in *;
+              try (match goal with Q : o_cancelled _ = false |- _ => rewrite Q in Hcan end; destruct (is_lock_ctx c); simpl in *; try discriminate);
+              destruct (locked s); simpl in *; try discriminate; lia
+            | subst h ]).
+  all: try (eexists; split; [reflexivity|]; intros xx; pose proof (Hh xx) as Hx; try (destruct kc; try kill_ki I Hth);
+            hold_norm Hth Hk xx; unfold getop in *; unfold op_tok in *; simpl in *;
+            rewrite ?Hres, ?Hrel in *; simpl in *; eqb_cases; subst; destr_if; try congruence; try lia; fail).
+  - (* a granted locker leaves its critical section *)
+    assert (Hn : h = Some i).
+    { pose proof (Hh i) as Hi. unfold hold_x in Hi. apply Nat.ltb_lt in Hk. rewrite Hk in Hi.
+      unfold op_tok, getop in *. rewrite Heql, Heqb in Hi.
+      destruct h as [y|]; [|lia]. unfold eqn in Hi. destruct (Nat.eqb_spec y i); [subst; auto|lia]. }
+    subst h. rewrite Nat.eqb_refl. exists None. split; [reflexivity|]. intros xx. pose proof (Hh xx) as Hx.
+    hold_norm Hth Hk xx. unfold getop, op_tok in *. simpl in *. rewrite ?Heql, ?Heqb in *. simpl in *.
+    eqb_cases; subst; try congruence; try lia.
+  - (* a try_lock winner leaves its critical section *)
+    assert (Hn : h = Some t0).
+    { pose proof (Hh t0) as Hi. unfold hold_x in Hi.
+      pose proof (sumf_nth_le (rel_of t0) _ _ _ Hth) as L. simpl in L. unfold eqn in L. rewrite Nat.eqb_refl in L.
+      destruct h as [y|]; [|lia]. unfold eqn in Hi. destruct (Nat.eqb_spec y t0); [subst; auto|lia]. }
+    subst h. rewrite Nat.eqb_refl. exists None. split; [reflexivity|]. intros xx. pose proof (Hh xx) as Hx.
+    assert (Hk : 0 < 1) by lia.
+    hold_norm Hth Hk xx. simpl in *. eqb_cases; subst; try congruence; try lia.
+Qed.
+
+Lemma tinv2_reachable fx hs nt sched : TInv2 (run step sched (init fx hs nt, [])).
+Proof.
+  apply (run_invariant _ _ _ step TInv2).
+  - intros c t s' ev T H. eapply step_tinv2; eauto.
+  - apply init_tinv2.
+Qed.
+
+(* mutual exclusion on traces: acquire (set_value of a lock operation, try_lock() = true) and
+   release events alternate, each release by the current holder - in both variants of the model *)
+Theorem mutex_trace fx hs nt sched :
+  let tr := snd (run step sched (init fx hs nt, [])) in
+  exists h, scan tr = Some h.
+Proof.
+  intros tr. destruct (t2_scan _ (tinv2_reachable fx hs nt sched)) as [h [H _]]. exists h. exact H.
+Qed.
+
+(* ------------------------------------------------------------------ FIFO *)
+Definition claim_of (e : ev) : list nat := match e with EPushClaim i => [i] | _ => [] end.
+Definition pop_of (e : ev) : list nat := match e with EPop (Some x) => [x] | _ => [] end.
+Definition removed_of (e : ev) : list nat := match e with ERemove i true => [i] | _ => [] end.
+(* the waiters in the order in which their push_back claimed the tail *)
+Definition claims (tr : list ev) : list nat := flat_map claim_of tr.
+(* the waiters in the order in which pop_front handed them to process_queue *)
+Definition pops (tr : list ev) : list nat := flat_map pop_of tr.
+(* the waiters taken out by a successful try_remove (cancelled while queued) *)
+Definition removed (tr : list ev) : list nat := flat_map removed_of tr.
+
+Definition prepush (x : act * cont) : option nat :=
+  match x with
+  | (AReg i, _) | (ARegRel i, _) | (AEarly i, _) | (ATryLock i, _) | (APush i, _) => Some i
+  | (ACbOr i, KInlineCb _) => Some i
+  | _ => None
+  end.
+
+Lemma filter_snoc {A} (P : A -> bool) l x : filter P (l ++ [x]) = filter P l ++ (if P x then [x] else []).
+Proof. rewrite filter_app. simpl. destruct (P x); reflexivity. Qed.
+
+Lemma mem_nat_app x l1 l2 : mem_nat x (l1 ++ l2) = mem_nat x l1 || mem_nat x l2.
+Proof. unfold mem_nat. apply existsb_app. Qed.
+
+Lemma mem_nat_In x l : mem_nat x l = true <-> In x l.
+Proof.
+  unfold mem_nat. rewrite existsb_exists. split.
+  - intros [y [H1 H2]]. apply Nat.eqb_eq in H2. subst. auto.
+  - intros H. exists x. split; auto. apply Nat.eqb_refl.
+Qed.
+
+Lemma mem_nat_false x l : mem_nat x l = false <-> ~ In x l.
+Proof. rewrite <- mem_nat_In. destruct (mem_nat x l); split; intros; try congruence; tauto. Qed.
+
+Lemma remove_nat_notin i l : ~ In i l -> remove_nat i l = l.
+Proof.
+  induction l as [|y l IH]; simpl; auto. intros H. destruct (Nat.eqb_spec i y).
+  - subst. exfalso. apply H. auto.
+  - f_equal. apply IH. tauto.
+Qed.
+
+Lemma remove_nat_app_r i l1 l2 : ~ In i l1 -> remove_nat i (l1 ++ l2) = l1 ++ remove_nat i l2.
+Proof.
+  induction l1 as [|y l IH]; simpl; auto. intros H. destruct (Nat.eqb_spec i y).
+  - subst. exfalso. apply H. auto.
+  - f_equal. apply IH. tauto.
+Qed.
+
+Lemma filter_removed_snoc R i l :
+  NoDup l -> ~ In i R ->
+  filter (fun j => negb (mem_nat j (R ++ [i]))) l = remove_nat i (filter (fun j => negb (mem_nat j R)) l).
+Proof.
+  intros N HR. induction l as [|j l IH]; simpl; auto.
+  inversion N; subst. rewrite mem_nat_app. simpl. rewrite orb_false_r.
+  destruct (Nat.eqb_spec j i).
+  - subst. apply mem_nat_false in HR. rewrite HR. simpl. rewrite Nat.eqb_refl.
+    rewrite IH by auto. apply remove_nat_notin. intros Hin. apply filter_In in Hin. tauto.
+  - rewrite orb_false_r. destruct (mem_nat j R); simpl; auto.
+    destruct (Nat.eqb_spec i j); [congruence|]. f_equal. auto.
+Qed.
+
+Record TInv3 (c : st * list ev) : Prop := {
+  t3_inv : Inv (fst c);
+  t3_nodup : NoDup (claims (snd c));
+  t3_pre : forall t x i, nth_error (thr (fst c)) t = Some x -> prepush x = Some i -> ~ In i (claims (snd c));
+  t3_rem : forall i, In i (removed (snd c)) -> In i (claims (snd c));
+  t3_head : forall t x kc, nth_error (thr (fst c)) t = Some (APopPub x, kc) -> hd_error (queue (fst c)) = Some x;
+  t3_fifo : filter (fun i => negb (mem_nat i (removed (snd c)))) (claims (snd c)) = pops (snd c) ++ queue (fst c)
+}.
+
+Lemma init_tinv3 fx hs nt : TInv3 (init fx hs nt, []).
+Proof.
+  constructor; cbn [fst snd].
+  - apply init_inv.
+  - constructor.
+  - intros t x i _ _ H. exact H.
+  - intros i H. exact H.
+  - intros t x kc H. apply init_thr_cases in H.
+    destruct H as [(H1 & E & _)|[(j & H1 & [E|E] & _)|(j & E & _)]]; discriminate.
+  - reflexivity.
+Qed.
+
+Lemma NoDup_snoc {A} (l : list A) x : NoDup l -> ~ In x l -> NoDup (l ++ [x]).
+Proof.
+  intros N H. induction l as [|a l IH]; simpl.
+  - constructor; auto.
+  - inversion N; subst. constructor.
+    + intros Hin. apply in_app_or in Hin. destruct Hin as [Hin|[Hin|[]]]; auto. subst. apply H. left; auto.
+    + apply IH; auto. intros Hin. apply H. right; auto.
+Qed.
+
+Lemma prepush_own s t x i : Inv s -> nth_error (thr s) t = Some x -> prepush x = Some i -> t = i.
+Proof.
+  intros I H Hp. destruct x as [a kc].
+  destruct a; simpl in Hp; try discriminate;
+    try (inversion Hp; subst; eapply (v_own_a _ I); eauto; reflexivity).
+  destruct kc; try discriminate. inversion Hp; subst.
+  pose proof (v_ki _ I _ _ _ H) as X. inversion X; subst.
+  eapply (v_own_k _ I); eauto.
+Qed.
+
+Lemma step_tinv3 c t s' evs : TInv3 c -> step t (fst c) = Some (s', evs) -> TInv3 (s', snd c ++ evs).
+Proof.
+  destruct c as [s tr]. cbn [fst snd]. intros T H.
+  pose proof (t3_inv _ T) as I. cbn [fst snd] in I.
+  pose proof (step_inv _ _ _ _ I H) as I'.
+  pose proof (t3_nodup _ T) as N. pose proof (t3_pre _ T) as P. pose proof (t3_rem _ T) as R.
+  pose proof (t3_head _ T) as Hd. pose proof (t3_fifo _ T) as F. cbn [fst snd] in *.
+  constructor; cbn [fst snd]; [exact I'| | | | |]; clear I'.
+  - (* NoDup claims *)
+    unfold claims in *. rewrite flat_map_app.
+    step_split' H Hth; simpl; rewrite ?app_nil_r; auto.
+    apply NoDup_snoc; auto. eapply P; eauto.
+  - (* prepush threads have not claimed *)
+    intros t0 x0 i0 H0 Hp. unfold claims in *. rewrite flat_map_app.
+    step_split' H Hth; simpl in H0;
+    (destruct (nth_thr_cases _ _ _ _ _ _ Hth H0) as [[-> E]|[N0 E]];
+     [ subst x0; try (destruct kc; simpl in Hp; try kill_ki I Hth);
+       repeat match type of Hp with context [if ?b then _ else _] => destruct b eqn:? end;
+       simpl in Hp; try discriminate Hp; injection Hp as Ei; subst i0;
+       simpl; rewrite ?app_nil_r; try (eapply P; [exact Hth|reflexivity])
+     | simpl; rewrite ?app_nil_r; try (eapply P; eauto; fail) ]).
+    + intros Hin. apply in_app_or in Hin. destruct Hin as [Hin|[Hin|[]]]; [eapply P; eauto|].
+      subst i0. apply N0. rewrite (prepush_own _ _ _ _ I E Hp).
+      symmetry. eapply (v_own_a _ I _ _ _ _ Hth). reflexivity.
+    + pose proof (v_ki _ I _ _ _ Hth) as X. inversion X; subst. eapply P; [exact Hth|reflexivity].
+  - (* removed waiters had claimed *)
+    intros i0 Hin. unfold removed, claims in *. rewrite !flat_map_app in *.
+    step_split' H Hth; simpl in *; rewrite ?app_nil_r in *; auto;
+      try (apply in_or_app; left; apply R; auto; fail).
+    apply in_app_or in Hin. destruct Hin as [Hin|[Hin|[]]]; [apply R; auto|]. subst i0.
+    apply andb_prop in Heqb. destruct Heqb as [Hm _]. apply mem_nat_In in Hm.
+    assert (X : In i (pops tr ++ queue s)) by (apply in_or_app; right; auto).
+    rewrite <- F in X. apply filter_In in X. tauto.
+  - (* a taken item is the head of the queue *)
+    intros t0 x0 kc0 H0.
+    step_split' H Hth; simpl in H0; simpl;
+    (destruct (nth_thr_cases _ _ _ _ _ _ Hth H0) as [[-> E]|[N0 E]];
+     [ try (destruct kc; simpl in E; try kill_ki I Hth);
+       repeat match type of E with context [if ?b then _ else _] => destruct b eqn:? end;
+       try discriminate E
+     | try (eapply Hd; eauto; fail) ]).
+    all: try (injection E as -> ->; match goal with Q : queue _ = _ |- _ => rewrite Q end; reflexivity).
+    all: try (pose proof (Hd _ _ _ E) as X; simpl in X; discriminate X).
+    all: try (pose proof (Hd _ _ _ E) as X; match goal with Q : queue _ = _ |- _ => rewrite Q end; exact X).
+    + pose proof (Hd _ _ _ E) as X. destruct (queue s); simpl in *; [discriminate|auto].
+    + exfalso. assert (X : 1 + 1 <= sumf is_poppub (thr s)) by (exact (sumf_two is_poppub _ _ _ _ _ Hth E (not_eq_sym N0))).
+      pose proof (v_pu _ I). lia.
+    + pose proof (Hd _ _ _ E) as X. apply andb_prop in Heqb. destruct Heqb as [_ Ht].
+      apply negb_true_iff in Ht.
+      destruct (queue s) as [|y r]; simpl in *; [discriminate|]. inversion X; subst.
+      destruct (Nat.eqb_spec i x0); [|reflexivity].
+      subst. exfalso. eapply taken_false_nth; eauto.
+  - (* the queue is the claim order minus the removed and the popped *)
+    unfold claims, pops, removed in *. rewrite !flat_map_app.
+    step_split' H Hth; simpl; rewrite ?app_nil_r; auto;
+      try (match goal with Q : queue _ = _ |- _ => rewrite <- Q in F end; exact F).
+    + (* claim *)
+      assert (Hni : ~ In i (flat_map claim_of tr)) by (eapply P; eauto; reflexivity).
+      assert (Hnr : mem_nat i (flat_map removed_of tr) = false).
+      { apply mem_nat_false. intros X. apply Hni. apply R. exact X. }
+      rewrite filter_snoc, Hnr. simpl. rewrite F, app_assoc. reflexivity.
+    + (* pop publishes *)
+      pose proof (Hd _ _ _ Hth) as X. destruct (queue s) as [|y r]; simpl in X; [discriminate|].
+      inversion X; subst. simpl. rewrite Nat.eqb_refl. rewrite F, <- app_assoc. reflexivity.
+    + (* try_remove *)
+      apply andb_prop in Heqb. destruct Heqb as [Hm _]. apply mem_nat_In in Hm.
+      assert (ND : NoDup (flat_map pop_of tr ++ queue s)) by (rewrite <- F; apply NoDup_filter; exact N).
+      assert (Hnp : ~ In i (flat_map pop_of tr)).
+      { intros X. revert ND X Hm. generalize (flat_map pop_of tr) (queue s). clear.
+        induction l as [|a l IH]; simpl; intros q ND X Hm; [tauto|].
+        inversion ND; subst. destruct X as [->|X].
+        - apply H1. apply in_or_app. right. auto.
+        - eapply IH; eauto. }
+      assert (Hnr : ~ In i (flat_map removed_of tr)).
+      { intros X. assert (Y : In i (flat_map pop_of tr ++ queue s)) by (apply in_or_app; right; auto).
+        rewrite <- F in Y. apply filter_In in Y. destruct Y as [_ Y].
+        apply mem_nat_In in X. rewrite X in Y. discriminate. }
+      rewrite filter_removed_snoc by auto. rewrite F. apply remove_nat_app_r. exact Hnp.
+Qed.
+
+Lemma tinv3_reachable fx hs nt sched : TInv3 (run step sched (init fx hs nt, [])).
+Proof.
+  apply (run_invariant _ _ _ step TInv3).
+  - intros c t s' ev T H. eapply step_tinv3; eauto.
+  - apply init_tinv3.
+Qed.
+
+(* FIFO: the queue is, in order, the waiters that claimed the tail (push_back), minus those taken
+   out by a successful try_remove (cancelled while queued), minus those already handed to
+   process_queue by pop_front: waiters are popped - granted the mutex - in the order they queued *)
+Theorem fifo fx hs nt sched :
+  let c := run step sched (init fx hs nt, []) in
+  filter (fun i => negb (mem_nat i (removed (snd c)))) (claims (snd c)) = pops (snd c) ++ queue (fst c)
+  /\ NoDup (claims (snd c)).
+Proof.
+  intros c. pose proof (tinv3_reachable fx hs nt sched) as T. fold c in T.
+  split; [apply (t3_fifo _ T)|apply (t3_nodup _ T)].
+Qed.
+
+(* ------------------------------------------------------------------ no lost waiter *)
+(* a thread that is about to (re)examine locked_ / the queue: the Dekker pattern *)
+Definition is_guard (x : act * cont) : nat :=
+  match x with
+  | (APushPub _, _) | (AXchg, _) | (AEmpty, _) | (AReXchg, _) => 1
+  | _ => 0
+  end.
+Definition guards (s : st) : nat := sumf is_guard (thr s).
+
+Record LInv (s : st) : Prop := {
+  l_inv : Inv s;
+  (* before its StopsEarly check passed, the operation has not set started_ *)
+  l_bs2 : forall t x i, nth_error (thr s) t = Some x -> pre_start x = Some i -> o_started_ (ops s i) = false;
+  (* the handle of an operation is never dropped: until try_complete(k) has been called it is
+     with k's thread, in the queue, or in the hands of exactly one thread *)
+  l_handle : forall k, k < nl s -> handles s k + b2n (o_completed (ops s k)) >= 1;
+  (* Dekker: when the mutex is unlocked and a waiter is queued, somebody is about to look *)
+  l_guard : locked s = false -> queue s <> [] -> guards s >= 1
+}.
+
+Lemma step_bs2 s t s' evs : Inv s ->
+  (forall t x i, nth_error (thr s) t = Some x -> pre_start x = Some i -> o_started_ (ops s i) = false) ->
+  step t s = Some (s', evs) ->
+  forall t0 x i, nth_error (thr s') t0 = Some x -> pre_start x = Some i -> o_started_ (ops s' i) = false.
+Proof.
+  intros I B2 H t0 x i0 H0 Hp. step_split' H Hth; simpl in *;
+  (destruct (nth_thr_cases _ _ _ _ _ _ Hth H0) as [[-> E]|[N E]];
+   [ subst x; try (destruct kc; simpl in *; try kill_ki I Hth); destr_if; try discriminate;
+     inversion Hp; subst;
+     (pose proof (B2 _ _ _ Hth eq_refl) as B; unfold getop in *; simpl in *; destr_if; simpl; auto)
+   | pose proof (B2 _ _ _ E Hp) as B; unfold getop in *; simpl in *; destr_if; simpl; auto ]).
+  all: try (match goal with Q : (_ =? _) = true |- true = false => apply Nat.eqb_eq in Q; subst end;
+            exfalso; apply N;
+            rewrite (pre_start_own _ _ _ _ I E Hp);
+            symmetry; eapply (v_own_a _ I _ _ _ _ Hth); reflexivity).
+  all: pose proof (v_ki _ I _ _ _ Hth) as X; inversion X; subst; exact B.
+Qed.
+
+Lemma handles_keep s t s' evs : Inv s ->
+  (forall t x i, nth_error (thr s) t = Some x -> pre_start x = Some i -> o_started_ (ops s i) = false) ->
+  step t s = Some (s', evs) -> forall k,
+  handles s k <= handles s' k + b2n (o_completed (ops s' k)).
+Proof.
+  intros I B2 H k.
+  assert (G : forall h0, h0 <= handles s k -> h0 <= handles s' k + b2n (o_completed (ops s' k))); [|apply G; apply le_n].
+  intros h0 E0. pose proof (v_hs1 _ I k) as H1.
+  step_split' H Hth; unfold handles, inq in *; simpl; try (destruct kc; simpl; try kill_ki I Hth); destr_if;
+    use_sum Hth; count_simp; unfold getop in *; simpl in *; try (eqb_cases; subst; simpl in *; rw_completed; simpl in *; lia);
+    try (pose proof (B2 _ _ _ Hth eq_refl) as B; simpl in B; congruence);
+    side_facts I Hth; try (kill_early I Hth); try (use_mem; eqb_cases; subst; simpl in *; rw_completed; simpl in *; lia).
+  pose proof (v_bs _ I _ _ _ Hth eq_refl) as B. simpl in B. congruence.
+Qed.
+
+Lemma tok_locked s t a kc : Inv s -> nth_error (thr s) t = Some (a, kc) -> act_tok a = 1 -> locked s = true.
+Proof.
+  intros I H Ha. pose proof (v_tok _ I) as T. rewrite tokens_eq in T. unfold thr_tok in T.
+  pose proof (sumf_nth_le (fun x => act_tok (fst x)) _ _ _ H) as L. simpl in L.
+  destruct (locked s); auto. simpl in T. lia.
+Qed.
+
+Lemma unpub_thread s x : unpub s x = true -> exists kc, nth_error (thr s) x = Some (APushPub x, kc).
+Proof.
+  unfold unpub. destruct (nth_error (thr s) x) as [[a kc]|]; try discriminate.
+  destruct a; try discriminate. intros H. apply Nat.eqb_eq in H. subst. eauto.
+Qed.
+
+Lemma step_linv s t s' evs : LInv s -> step t s = Some (s', evs) -> LInv s'.
+Proof.
+  intros L H. pose proof (l_inv _ L) as I. pose proof (l_bs2 _ L) as B2.
+  destruct (step_consts _ _ _ _ H) as [_ Enl].
+  constructor.
+  - eapply step_inv; eauto.
+  - eapply step_bs2; eauto.
+  - intros k Hk. rewrite Enl in Hk. pose proof (l_handle _ L k Hk) as Hh.
+    pose proof (handles_keep _ _ _ _ I B2 H k) as K.
+    destruct (o_completed (ops s k)) eqn:C.
+    + assert (o_completed (ops s' k) = true).
+      { clear - H C. step_split' H Hth; simpl; unfold getop in *; destr_if; simpl; auto. }
+      rewrite H0. simpl. lia.
+    + simpl in Hh. lia.
+  - intros Hl Hq. pose proof (l_guard _ L) as G. unfold guards in *.
+    step_split' H Hth; simpl in *; try (destruct kc; simpl; try kill_ki I Hth); destr_if; use_sum Hth;
+      try discriminate; try congruence; try lia;
+      try (assert (Gx : sumf is_guard (thr s) >= 1) by (apply G; [assumption|first [assumption|discriminate|congruence]]); lia).
+    all: try (exfalso; assert (Lk : locked s = true) by (eapply tok_locked; [exact I|exact Hth|reflexivity]); congruence).
+    all: try (assert (Gx : sumf is_guard (thr s) >= 1) by (apply G; [assumption|intros Z; rewrite Z in Hq; simpl in Hq; congruence]); lia).
+    all: destruct (queue s) as [|x r] eqn:Eq; [congruence|];
+         destruct (unpub_thread _ _ Heqb) as [kc' Hx];
+         assert (Nx : t <> x) by (intros ->; rewrite Hth in Hx; discriminate);
+         assert (X : 1 + 1 <= sumf is_guard (thr s)) by (exact (sumf_two is_guard _ _ _ _ _ Hth Hx Nx)); lia.
+Qed.
+
+Lemma init_linv fx hs nt : LInv (init fx hs nt).
+Proof.
+  constructor.
+  - apply init_inv.
+  - intros t x i H Hp. reflexivity.
+  - intros k Hk. unfold handles, inq. rewrite init_sum0 by reflexivity. simpl in *.
+    assert (G : forall n b, b <= k < b + n -> sumf (fun i => eqn i k) (seq b n) >= 1).
+    { clear. induction n as [|n IH]; intros b Hb; [lia|]. unfold sumf in *. simpl.
+      unfold eqn at 1. destruct (Nat.eqb_spec b k); [lia|]. specialize (IH (S b)). lia. }
+    specialize (G (length hs) 0). lia.
+  - intros _ Hq. simpl in Hq. congruence.
+Qed.
+
+Lemma linv_reachable fx hs nt sched : LInv (fst (run step sched (init fx hs nt, []))).
+Proof.
+  apply (run_invariant_state _ _ _ step LInv).
+  - intros s t s' ev I H. eapply step_linv; eauto.
+  - apply init_linv.
+Qed.
+
+(* no lost waiter, invariant part (both variants of the forwarder):
+   - an operation whose try_complete has not been called yet is never dropped: its handle is
+     with its own thread (before push_back), in the queue, or held by exactly one thread that is
+     about to call try_complete on it;
+   - the Dekker property: when locked_ is false and a waiter is queued, some thread is between
+     its push_back and its locked_.exchange, or between locked_.store(false) and the re-check *)
+Theorem no_lost_waiter fx hs nt sched :
+  let s := fst (run step sched (init fx hs nt, [])) in
+  (forall k, k < nl s -> o_completed (ops s k) = false -> handles s k = 1) /\
+  (locked s = false -> queue s <> [] -> guards s >= 1).
+Proof.
+  intros s. pose proof (linv_reachable fx hs nt sched) as L. fold s in L. split.
+  - intros k Hk Hc. pose proof (l_handle _ L k Hk) as H. rewrite Hc in H. simpl in H.
+    pose proof (v_hs1 _ (l_inv _ L) k). lia.
+  - apply (l_guard _ L).
+Qed.
